@@ -24,6 +24,10 @@ CHECKS = {
    technique="TLA+ spec (Names.tla: NameSelector mechanism, Injective/Stable) model-checked with TLC; TLC-generated entity multisets built end to end by FORD; every recorded get_name call validated by TLC (Names_Trace.tla)",
    text="TLC checks that the selector hands distinct entities of one output directory distinct case-insensitive stems for every call sequence up to the bound and enumerates entity multisets over related names (case variants, operator/assignment interfaces, module vs submodule, unnamed programs and block data, equal file names in different directories); each multiset is rendered as a project and built by the real FORD: page objects vs files written, the page at every entity's URL holds that entity's tracer, ids unique per page, src/ copies serve the defining file; the get_name calls of every run are replayed by TLC against the selector model (returned stem = model stem, Injective after every call).",
    note="Bounded: sequences of <=2-3 entities over 15 (directory, name) pairs, plus seeded samples. Stem normalisation (lower-case + 4 symbol replacements) is supplied by the harness to TLC. Trusted: TLC, bs4 html.parser, renderer."),
+ "C09": dict(level="model_checking", ref="DESIGN.md 6/C09, 4.7, B.8",
+   technique="TLA+ spec (Pages.tla: list pages written vs. linked per project shape) model-checked with TLC; TLC-enumerated shapes built end to end by FORD and every link crawled before and after relocating the tree",
+   text="TLC checks NavLinksWritten (every list page linked from the navigation bar or front page is written) for all project shapes (0..2 entities of each page-bearing kind x incl_src x front-page lists) and enumerates the shapes; each is rendered as a project, built by the real FORD with an option set (search, graph incl. table fallback, proc_internals, display, sort, page_dir), and every href/src/xlink:href and search-index url of every page must be relative, resolve to an existing file under the output directory and name an existing id; the output tree is then moved and crawled again.",
+   note="Model checking covers page/navigation consistency only; link correctness itself is decided by the crawl (exploration). Shapes: exhaustive for counts 0/1, counts 2 and option sets sampled deterministically in quick. Trusted: TLC, bs4 html.parser, graphviz."),
 }
 
 NOT_YET = {}
